@@ -47,12 +47,17 @@ Record fdef := mkF { f_name: string; f_alias: option string; f_ty: ty }.
    c_parent: the dataclass base (single inheritance) - only used for the MRO walk;
    c_by_alias: Config.serialize_by_alias (None = not set);
    c_omit_none: Config.omit_none (None = not set);
+   c_sort_keys: Config.sort_keys (to_dict emits the fields sorted by field NAME);
+   c_forbid_extra: Config.forbid_extra_keys (from_dict raises ExtraKeysError for a key that is no alias-or-name);
+   c_allow_by_name: Config.allow_deserialization_not_by_alias (an aliased field is also read under its name);
    c_has_method: the class's own __dict__ holds __mashumaro_to_dict__ (mixin classes always;
    plain dataclasses once some nailed builder compiled them as a field type).  When calls carry
    `dialect=` the flag is also set for subclasses of such classes: the inherited dialect-aware
    method compiles/looks up the packer of self.__class__, i.e. of the runtime class. *)
 Record cdef := mkC { c_name: cname; c_parent: option cname; c_fields: list fdef;
-                     c_by_alias: option bool; c_omit_none: option bool; c_has_method: bool }.
+                     c_by_alias: option bool; c_omit_none: option bool;
+                     c_sort_keys: bool; c_forbid_extra: bool; c_allow_by_name: bool;
+                     c_has_method: bool }.
 Definition env := list cdef.
 
 Fixpoint find_cls (E: env) (c: cname) : option cdef :=
@@ -67,9 +72,10 @@ Fixpoint find_cls (E: env) (c: cname) : option cdef :=
    XUnionV   "no union member matched", codec builder: ValueError(value)
    XInvalid  InvalidFieldValue(field, holder class) raised by a from_dict field block
    XMissing  MissingField(field, holder class)
+   XExtra    ExtraKeysError(holder class) (forbid_extra_keys; the key set is not compared)
    XUnmodelled  the model declines (iteration/indexing of str, repr of containers) *)
 Inductive err := XRaw | XUnionI | XUnionV | XInvalid (f: string) (c: cname)
-               | XMissing (f: string) (c: cname) | XUnmodelled.
+               | XMissing (f: string) (c: cname) | XExtra (c: cname) | XUnmodelled.
 Inductive res (A: Type) := Ok (a: A) | Err (e: err).
 Arguments Ok {A} a.
 Arguments Err {A} e.
@@ -109,6 +115,15 @@ Definition eff_omit_none (call dflt: opts) (d: cdef) : bool :=
   opt_or (o_omit_none call) (opt_or (c_omit_none d) (opt_or (o_omit_none dflt) false)).
 Definition key_of (call dflt: opts) (d: cdef) (f: fdef) : string :=
   if eff_by_alias call dflt d then match f_alias f with Some a => a | None => f_name f end else f_name f.
+
+(* Config.sort_keys: the field loop of to_dict runs over the fields sorted by name *)
+Fixpoint insert_field (f: fdef) (l: list fdef) : list fdef :=
+  match l with
+  | [] => [f]
+  | g :: r => if String.leb (f_name f) (f_name g) then f :: l else g :: insert_field f r
+  end.
+Definition sort_fields (l: list fdef) : list fdef := fold_right insert_field [] l.
+Definition pack_order (d: cdef) : list fdef := if c_sort_keys d then sort_fields (c_fields d) else c_fields d.
 
 Definition is_none (v: val) : bool := match v with VNone => true | _ => false end.
 Definition is_opt (t: ty) : bool := match t with TOpt _ => true | _ => false end.
@@ -244,7 +259,7 @@ Section Pack.
                           else match g (f_ty f) with
                                | Ok y => Ok [(key_of call dflt d f, y)]
                                | Err e => Err e end
-                      end) (c_fields d)).
+                      end) (pack_order d)).
 
   Definition target (ann rc: cname) : option cdef :=
     match m with
@@ -518,11 +533,25 @@ Section Unpack.
 
   (* field blocks of the generated __mashumaro_from_dict__ of class [c] over key closures:
      d.get(alias or name) ; MissingField ; any exception of the value unpacker -> InvalidFieldValue *)
+  (* the keys a class accepts (forbid_extra_keys) and where a field is read (alias first, then - if allowed - name) *)
+  Definition allowed_keys (d: cdef) : list string :=
+    (map (fun f => match f_alias f with Some a => a | None => f_name f end) (c_fields d)
+     ++ (if c_allow_by_name d then map f_name (c_fields d) else []))%list.
+  Definition field_lookup {A} (d: cdef) (cl: list (string * A)) (f: fdef) : option A :=
+    match f_alias f with
+    | Some a => match assoc cl a with
+                | Some g => Some g
+                | None => if c_allow_by_name d then assoc cl (f_name f) else None end
+    | None => assoc cl (f_name f)
+    end.
+
   Definition unpack_fields_cl (c: cname) (d: cdef) (cl: list (string * (ty -> res val))) : res val :=
+    if c_forbid_extra d && existsb (fun k => negb (existsb (String.eqb k) (allowed_keys d))) (map fst cl)
+    then Err (XExtra c)
+    else
     fmap (VObj c)
       (mapM (fun f =>
-               let key := match f_alias f with Some a => a | None => f_name f end in
-               match assoc cl key with
+               match field_lookup d cl f with
                | None => Err (XMissing (f_name f) c)
                | Some g => match g (f_ty f) with
                            | Ok y => Ok (f_name f, y)
@@ -620,6 +649,7 @@ Definition err_eqb (a b: err) : bool :=
   | XRaw, XRaw | XUnionI, XUnionI | XUnionV, XUnionV | XUnmodelled, XUnmodelled => true
   | XInvalid f c, XInvalid f' c' => String.eqb f f' && String.eqb c c'
   | XMissing f c, XMissing f' c' => String.eqb f f' && String.eqb c c'
+  | XExtra c, XExtra c' => String.eqb c c'
   | _, _ => false
   end.
 
